@@ -1632,6 +1632,25 @@ void slice0_recursive_wrapper()
 {
   if (!entry_selected("recursive-wrapper"))
     return;
+  // a wrapped value whose own == is not reflexive (NaN): the wrapper "exposes exactly the wrapped object" - its == is the
+  // == of the wrapped values, whether the two operands are one object or two
+  if (vf::begin_case("recursive<double> holding NaN / 1.5: self comparison, aliases, copies"))
+  {
+    double const nan = std::numeric_limits<double>::quiet_NaN();
+    for (double v : {nan, 1.5})
+    {
+      fcppt::recursive<double> const r(v), copy(r);
+      fcppt::recursive<double> const &alias = r;
+      bool const want = v == v;
+      VF_COUNT("wrappers/recursive-non-reflexive-values");
+      if ((r == alias) != want || (r != alias) == want || (r == copy) != want || (r == r) != (r.get() == r.get()))
+        vf::violation("recursive<double>/comparison/differs-from-wrapped(non-reflexive value)", "mismatch",
+                      std::string("value ") + (want ? "1.5" : "NaN") + ": r == r gives " + ((r == alias) ? "true" : "false") + ", the wrapped values compare " + (want ? "equal" : "unequal"));
+      std::vector<fcppt::recursive<double>> const vec1{r}, &vec_alias = vec1;
+      if ((vec1 == vec_alias) != want)
+        vf::violation("recursive<double>/comparison/in-a-vector(non-reflexive value)", "mismatch", "");
+    }
+  }
   recursive_cases<int>("int", {0, 1, 2});
   recursive_cases<std::string>("string", wrapped_strings);
   recursive_cases<std::vector<int>>("std::vector<int>", {{}, {1}, {1, 2, 3}});
